@@ -7,6 +7,7 @@ impl ParseISO8601<DateTime<FixedOffset>> for DateTime<FixedOffset> {
 //@ params s
 //@ hideutf8
 //@ props C08 C16
+//@ consumers C01 C02 C04 C13
 //@ ret r
 //@ replace 1 `offset_str.replace(':', "")` => `str_remove_char(offset_str, ':')`
 //@ replace 1 `offset_condensed.split_at(1)` => `str_split_at_ascii(string_as_str(&offset_condensed), 1)`
